@@ -5,7 +5,7 @@
 
      accept  c                      connection accepted (c = the daemon's descriptor)
      msg     c t wf .. st           complete message of type t taken and answered (request parameters:
-                                    compat, srv / prio, valid / flags); st = state dump after it;
+                                    compat, srv, nsi / prio, valid / flags); st = state dump after it;
                                     wf = "yes" / "no": the sender's label (well-formed or not), "any": an ioctl
                                     request cut inside its arg_size field (the daemon reads the missing byte
                                     from its buffer)
@@ -16,6 +16,7 @@
      wrote   c                      the daemon has written out what it had queued for c
      grant / reclaim  c st          indication queued
      timer   st                     scheduler timer
+     chg     c                      CHN_CHANGE_IND (status indication) queued for c (no effect on connection / token state)
      obs     c m ind                client c received message m (channel messages only; ind = token_ind)
      reset                          new daemon process
 
@@ -58,7 +59,7 @@ TMsg ==
   LET c == Ev.c  t == Ev.t IN
   /\ Ev.wf # "no"
   /\ \/ /\ t = T_CONNECT /\ Ev.compat
-        /\ \E s \in BOOLEAN : MConnect(c, s)
+        /\ \E s \in BOOLEAN : MConnect(c, s, Ev.nsi)           \* nsi: client_flags & NO_STATUS_IND
         /\ Sent(c, [m |-> "CONNECT_CNF", ind |-> 0])
      \/ /\ t = T_SERVICE /\ \E s \in BOOLEAN : MServiceReq(c, s)
         /\ out' = out                                     \* SERVICE_CNF / SERVICE_REJ: C18
@@ -104,7 +105,7 @@ TReset == /\ \A c \in Clients : out[c] = <<>>        \* everything sent has been
           /\ order' = <<>> /\ cst' = [c \in Clients |-> "none"]
           /\ prio' = [c \in Clients |-> IA] /\ valid' = [c \in Clients |-> FALSE]
           /\ tok' = [c \in Clients |-> "NONE"] /\ svc' = [c \in Clients |-> FALSE]
-          /\ holders' = {} /\ up' = TRUE
+          /\ nsi' = [c \in Clients |-> FALSE] /\ holders' = {} /\ up' = TRUE
           /\ rd' = [c \in Clients |-> "idle"] /\ wr' = [c \in Clients |-> FALSE]
           /\ out' = [c \in Clients |-> <<>>]
 
@@ -117,6 +118,8 @@ TNext == /\ l <= Len(Log) /\ l' = l + 1
             \/ Ev.e = "grant" /\ CSendGrant(Ev.c) /\ Sent(Ev.c, [m |-> "CHN_TOKEN_IND", ind |-> 0]) /\ DumpOK
             \/ Ev.e = "reclaim" /\ CSendReclaim(Ev.c) /\ Sent(Ev.c, [m |-> "CHN_RECLAIM_REQ", ind |-> 0]) /\ DumpOK
             \/ Ev.e = "timer" /\ CTimer /\ out' = out /\ DumpOK
+            \* who gets status indications is outside the statement of C19: any open connection (ChangeIndTo is what the code does)
+            \/ Ev.e = "chg" /\ cst[Ev.c] # "none" /\ UNCHANGED cvars /\ out' = out
             \/ Ev.e = "obs" /\ TObs
             \/ Ev.e = "reset" /\ TReset
 
